@@ -57,6 +57,7 @@ func runChild(o childOpts) childOut {
 		"GODEBUG=randseednop=0", "GORACE=atexit_sleep_ms=0 halt_on_error=0 history_size=4",
 		"PATH=" + os.Getenv("PATH"), "HOME=" + os.Getenv("HOME"), "TMPDIR=" + os.TempDir(),
 		"VERIF_REPO=" + repoDir(), "VERIF_SEED=" + os.Getenv("VERIF_SEED"),
+		"VERIF_DEBUG=" + os.Getenv("VERIF_DEBUG"), // development aid: engines may report more (never set by the registered commands)
 	}
 	markFile := filepath.Join(os.TempDir(), fmt.Sprintf("verifsim-mark-%d-%d", os.Getpid(), markSeq.Add(1)))
 	env = append(env, "VERIF_MARK_FILE="+markFile)
